@@ -60,6 +60,7 @@ def parseOp (j : Json) : Option Op :=
   | "move" => some (.move (jnat j "u") (jnat j "parent"))
   | "remove" => some (.remove (jnat j "u"))
   | "detach" => some (.detach (jnat j "u"))
+  | "setTyp" => some (.setTyp (jnat j "u") (jnat j "typ"))
   | "setAllowDelete" => some (.setAllowDelete (jnat j "u") (jbool j "b"))
   | "copy" => some (.copy (jnat j "u") (jnat j "parent")
         ((jarr j "idmap").map fun p => match (asArr p).map asNat with | [a, b] => (a, b) | _ => (0, 0)))
